@@ -20,6 +20,7 @@ mod minimise;
 mod oracle;
 mod probe;
 mod report;
+mod selftest;
 mod sim;
 
 use serde_json::Value;
@@ -72,6 +73,8 @@ fn main() {
                 }
             }
         }
+        Some("selftest") => selftest::run(seed, args.get(1).and_then(|s| s.parse().ok()).unwrap_or(40)),
+        Some("digest") => selftest::digest_main(seed, args.get(1).and_then(|s| s.parse().ok()).unwrap_or(40)),
         Some("C10") => c10::run(args.get(1).map(|s| s.as_str()).unwrap_or("quick"), seed),
         Some("C11") => c11::run(args.get(1).map(|s| s.as_str()).unwrap_or("quick"), seed),
         Some("C19") => c19::run(args.get(1).map(|s| s.as_str()).unwrap_or("quick"), seed),
